@@ -1,6 +1,7 @@
 CFG = {
     "lean_targets": ["Norad.Props.C11"],
     "audit": "Norad/Audit/C11.lean",
+    "extract": "contour_automaton",
     "rule": ("all sequences over {move,line,offcurve,curve,qcurve} up to length 7 (quick) / 9 (thorough), format 2; "
              "up to length 5 also format 1 and every single-position smooth variant; plus random outlines of 1-4 "
              "contours (lengths up to 60, random smooth flags, empty contours) through Glyph::parse_raw. "
@@ -8,6 +9,7 @@ CFG = {
     "exhaustive": {"quick": True, "thorough": True},
     "exhaustive_note": "point-type sequences up to length 7 (quick) / 9 (thorough) are enumerated completely; the random part is not exhaustive",
     "trusted_base": COMMON_TRUST + [
+        "tools/extract_contour_automaton.py (regex translator of the five match arms of add_point and of the wrap-around loop; falls back to the pinned copy when the code no longer has that shape)",
         "modelled, not verified: quick-xml tokenising of the generated documents; the attribute parsers of <point> (x, y, type, smooth) are exercised but only the type/smooth/coordinate echo is compared",
         "u32 saturation of the off-curve counter is unreachable below 2^32 points and is modelled with Nat",
     ],
@@ -21,8 +23,10 @@ MANIFEST = {
              "iff it satisfies an independent declarative legality predicate (wrap-around included); accepted contours are returned unchanged, "
              "empty ones dropped. The model is tied to the code by running Glyph::parse_raw on all sequences up to length 7/9 plus random "
              "outlines and comparing with the compiled model; the executable oracle legalB (proved equivalent to the declarative rule) is "
-             "evaluated on the implementation's own verdict."),
+             "evaluated on the implementation's own verdict. In addition the automaton is REGENERATED from src/glyph/builder.rs on every run "
+             "(tools/extract_contour_automaton.py translates the match arms of add_point/end_path to Lean) and source_addPoint_eq_model, "
+             "source_wrap_eq_model, source_endPath_eq_model, source_accepts_iff_legal re-check the theorems against the current source."),
     "design_ref": "5 / C11, Appendix A",
     "note": "trusted: Lean kernel, the three standard axioms, the harness and driver glue, quick-xml tokenising; u32 counter modelled as Nat",
-    "technique": "Lean 4 theorem (induction over the point list, iff with a declarative spec) + exhaustive-to-length-7 correspondence",
+    "technique": "Lean 4 theorem (induction over the point list, iff with a declarative spec) over an automaton regenerated from the source by a translator + exhaustive-to-length-7 correspondence",
 }
